@@ -225,6 +225,7 @@ for (h, n) in ((3, 2), (4, 2), (4, 3), (5, 3), (6, 3), (6, 4)):
 UC("c05-exact-canary", "exact", "exact_canary()", {"C05": "quick"}, "bounded", [], "canary", unwind=8, expect="fail", no_cover=True)
 
 # public entry points, ASCII x ASCII
+OPT_STUB = [("crate::Matcher::fuzzy_match_optimal", "crate::fuzzy_optimal::verif_optimal::opt_contract")]
 ALGS = {0: ("fuzzy", ["Matcher::fuzzy_match", "Matcher::fuzzy_indices", "Matcher::fuzzy_matcher_impl"]),
         1: ("greedy", ["Matcher::fuzzy_match_greedy", "Matcher::fuzzy_indices_greedy", "Matcher::fuzzy_match_greedy_impl"]),
         2: ("substring", ["Matcher::substring_match", "Matcher::substring_indices", "Matcher::substring_match_impl"]),
@@ -243,15 +244,18 @@ for alg, (aname, fns) in ALGS.items():
             bound = "entry point %s, Ascii x Ascii, haystack %d, needle %d, %s" % (aname, h, n, CFGNAME[k])
             dp = dict((p, tier) for p in decp)
             dp["C10"] = tier
+            st = OPT_STUB if heavy else []
+            if heavy:
+                bound += "; fuzzy_match_optimal replaced by its contract (checked against its body by c02-opt-*/c04-opt-*)"
             UC("c01-entry-dec-" + tag, "entry", "entry_decision::<%d,%d,%d,%d>()" % (alg, h, n, k), dp, "bounded", fns,
-               "%s_match succeeds exactly when the documented relation holds (empty needle => Some(0))" % aname, unwind=max(h + 3, 7), bound=bound, cost=9 if heavy else 3, timeout=1500)
+               "%s_match succeeds exactly when the documented relation holds (empty needle => Some(0))" % aname, unwind=max(h + 3, 7), bound=bound, cost=5 if heavy else 3, timeout=1500, stubs=st)
             wp = {"C02": tier, "C03": tier}
             wp.update(dp)
             UC("c02-entry-wit-" + tag, "entry", "entry_witness::<%d,%d,%d,%d>()" % (alg, h, n, k), wp, "bounded", fns,
-               "%s_indices: same decision; W; contiguous+anchored for non-fuzzy kinds; score == fzf scheme on the indices; None appends nothing" % aname, unwind=max(h + 3, 7), bound=bound, cost=9 if heavy else 4, timeout=1500)
+               "%s_indices: same decision; W; contiguous+anchored for non-fuzzy kinds; score == fzf scheme on the indices; None appends nothing" % aname, unwind=max(h + 3, 7), bound=bound, cost=6 if heavy else 4, timeout=1500, stubs=st)
             if (h, n) in ((4, 2), (3, 3)) and k == 0:
                 UC("c03-entry-agree-" + tag, "entry", "entry_agree::<%d,%d,%d,%d>()" % (alg, h, n, k), {"C03": tier, "C10": tier}, "bounded", fns,
-                   "%s: score-only and indices entry points agree, also on a reused matcher" % aname, unwind=max(h + 3, 7), bound=bound, cost=9 if heavy else 3, timeout=1500)
+                   "%s: score-only and indices entry points agree, also on a reused matcher" % aname, unwind=max(h + 3, 7), bound=bound, cost=6 if heavy else 3, timeout=1500, stubs=st)
 REFUSE = [("crate::matrix::MatrixSlab::alloc", "crate::matrix::verif_matrix::alloc_refuses")]
 for (h, n) in ((4, 2), (5, 3)):
     tier = "quick" if h == 4 else "thorough"
@@ -355,14 +359,14 @@ for rep in (1, 2, 3, 4):
             dp["C10"] = tier
             UC("c01-uni-dec-" + tag, "uni", "uni_decision::<%d,%d,%d,%d,0>()" % (rep, alg, h, n), dp, "bounded", UNI_FNS[alg],
                "%s_match (%s) succeeds exactly when the documented relation holds over the characters" % (aname, REPNAME[rep]),
-               unwind=max(h + 3, 7), bound=bound, cost=9 if heavy else 4, timeout=1500, stubs=CHAR_STUBS,
+               unwind=max(h + 3, 7), bound=bound + ("; fuzzy_match_optimal replaced by its contract" if heavy else ""), cost=5 if heavy else 4, timeout=1500, stubs=CHAR_STUBS + (OPT_STUB if heavy else []),
                expect="known:D2" if rep == 3 else "pass")
             if rep in (1, 2):
                 wp = {"C02": tier, "C03": tier}
                 wp.update(dp)
                 UC("c02-uni-wit-" + tag, "uni", "uni_witness::<%d,%d,%d,%d,0>()" % (rep, alg, h, n), wp, "bounded", UNI_FNS[alg],
                    "%s_indices (%s): same decision; W; contiguous+anchored for non-fuzzy kinds; score == fzf scheme; None appends nothing" % (aname, REPNAME[rep]),
-                   unwind=max(h + 3, 7), bound=bound, cost=9 if heavy else 5, timeout=1500, stubs=CHAR_STUBS)
+                   unwind=max(h + 3, 7), bound=bound + ("; fuzzy_match_optimal replaced by its contract" if heavy else ""), cost=6 if heavy else 5, timeout=1500, stubs=CHAR_STUBS + (OPT_STUB if heavy else []))
             if rep == 1 and (h, n) == (4, 2):
                 UC("c03-uni-agree-" + tag, "uni", "uni_agree::<%d,%d,%d,%d,0>()" % (rep, alg, h, n), {"C03": tier}, "bounded", UNI_FNS[alg],
                    "%s (%s): score-only and indices variants agree" % (aname, REPNAME[rep]), unwind=max(h + 3, 7), bound=bound, cost=5, timeout=1500, stubs=CHAR_STUBS)
@@ -384,13 +388,18 @@ KN = {0: "fuzzy", 1: "substring", 2: "prefix", 3: "postfix", 4: "exact"}
 PAT_FNS = ["pattern::Atom::score", "pattern::Atom::indices", "pattern::Pattern::score", "pattern::Pattern::indices"]
 for (k1, n1, k2, n2) in ((0, 0, 1, 0), (0, 0, 1, 1), (1, 1, 0, 0), (2, 0, 3, 0), (2, 0, 3, 1), (4, 0, 0, 0), (4, 1, 2, 0), (1, 0, 4, 1)):
     tag = "%s%s-%s%s" % ("not-" if n1 else "", KN[k1], "not-" if n2 else "", KN[k2])
-    heavy = 0 in (k1, k2)
-    UC("c15-pattern-" + tag, "pattern", "pattern_two_atoms::<3,%d,%s,%d,%s>()" % (k1, "true" if n1 else "false", k2, "true" if n2 else "false"),
-       {"C15": "quick" if not (k1 == 0 and k2 == 1 and n2) else "quick"}, "bounded", PAT_FNS,
-       "Pattern::score/indices of [%s%s atom (1 char), %s%s atom (2 chars)] == conjunction with negation, sum of positive scores, indices appended in atom order; the caller's matcher may carry any earlier case/normalisation setting" % ("negated " if n1 else "", KN[k1], "negated " if n2 else "", KN[k2]),
-       unwind=8, bound="ASCII haystack 3 over {a,b,c,A,space}, needles 1 and 2 chars over {a,b,c,space}, symbolic ignore_case/normalize per atom, DEFAULT bonuses", cost=9 if heavy else 5, timeout=1500)
+    fz = 0 in (k1, k2)
+    shape = "3,%d,%s,%d,%s" % (k1, "true" if n1 else "false", k2, "true" if n2 else "false")
+    what = "[%s%s atom (1 char), %s%s atom (2 chars)]" % ("negated " if n1 else "", KN[k1], "negated " if n2 else "", KN[k2])
+    bound = "ASCII haystack 3 over {a,b,c,A,space}, needles 1 and 2 chars over {a,b,c,space}, symbolic ignore_case/normalize per atom, DEFAULT bonuses" + ("; fuzzy_match_optimal replaced by its contract" if fz else "")
+    UC("c15-pattern-score-" + tag, "pattern", "pattern_score_two_atoms::<%s>()" % shape, {"C15": "quick"}, "bounded", PAT_FNS[:1] + PAT_FNS[2:3],
+       "Pattern::score of %s == conjunction with negation, sum of positive scores; the caller's matcher may carry any earlier case/normalisation setting" % what,
+       unwind=8, bound=bound, cost=6, timeout=1500, stubs=OPT_STUB if fz else [])
+    UC("c15-pattern-indices-" + tag, "pattern", "pattern_indices_two_atoms::<%s>()" % shape, {"C15": "quick"}, "bounded", PAT_FNS[1:2] + PAT_FNS[3:],
+       "Pattern::indices of %s: same decision and score as the conjunction, positive atoms' indices appended in atom order, negated atoms append nothing" % what,
+       unwind=8, bound=bound, cost=7, timeout=1500, stubs=OPT_STUB if fz else [])
 UC("c15-pattern-empty", "pattern", "pattern_empty()", {"C15": "quick"}, "bounded", PAT_FNS[2:], "an empty pattern matches everything with score 0 and appends nothing", unwind=8, bound="ASCII haystack 3")
-UC("c15-multipattern-two-columns", "multipattern", "multipattern_two_columns()", {"C15": "quick"}, "bounded", ["nucleo::pattern::MultiPattern::score", "nucleo::pattern::MultiPattern::reparse", "pattern::Pattern::parse"],
+UC("c15-multipattern-two-columns", "multipattern", "multipattern_two_columns()", {"C15": "thorough"}, "bounded", ["nucleo::pattern::MultiPattern::score", "nucleo::pattern::MultiPattern::reparse", "pattern::Pattern::parse"],
    "MultiPattern [\"a\", \"!b\"] over two columns == conjunction of the column patterns; matches iff column 0 contains a/A and column 1 contains no b/B", unwind=12,
    bound="two columns of 2 ASCII bytes each, concrete pattern texts parsed by the real parser, real 135 KB matcher", cost=8, timeout=1500)
 UC("c15-multipattern-empty", "multipattern", "multipattern_empty()", {"C15": "quick"}, "bounded", ["nucleo::pattern::MultiPattern::score", "nucleo::pattern::MultiPattern::is_empty"],
